@@ -29,7 +29,8 @@ LEVEL_TEXT = ("Generated-input search over arbitrary small games (end components
               "time), and one-sidedness is checked with rounding slack only. Large boards are held to the weaker "
               "consistency clauses and labelled so. Exploration is the right level: all games is an infinite domain, "
               "the oracle is exact on what is generated."
-              " Added while validating sensitivity: medium-size stopping games (20-8200 states, three numbering schemes) decided by the harness's own value iteration from below and from above (a sound bracket), deep corridors (60-1030 states) and very slow loops whose exact values are known by construction, boards beyond 1024 and 2048 states, and the residual clause on every game.")
+              " Added while validating sensitivity: medium-size stopping games (20-8200 states, three numbering schemes) decided by the harness's own value iteration from below and from above (a sound bracket), deep corridors (60-1030 states) and very slow loops whose exact values are known by construction, boards beyond 1024 and 2048 states, and the residual clause on every game."
+              " Later rounds: for a quarter of the solve-route cases the batch driver is called too and its two entries must carry identical probabilities; a quarter of all solves reach the solver through an input file and the repository's reader.")
 LEVEL_NOTE = ("Trusted: harness/exact.py (cross-checked by the oracle self-test: strategy iteration == enumeration), "
               "the tolerance argument of DESIGN 2.4 (Gauss-Seidel stop rule => Jacobi residual <= threshold => error "
               "<= threshold x T on stopping games). Exact oracle limited to <= 256 (quick) / 4096 (thorough) strategy "
